@@ -10,6 +10,7 @@ from .c01 import gen_cases
 class C02(Prop):
     pid = "C02"
     lean_module = "RxModel.Props.C02"
+    extra_modules = ("RxModel.Props.C02T",)
     design_ref = "DESIGN.md §6 C02"
     rule = ("the C01 case population with `unsub` injected at every position of the event script, followed by "
             "the rest of the script and extra events on every hot input. Compared after the cut only. Oracle on "
